@@ -26,7 +26,7 @@ func newBrokerPublishQOS2Transaction(ctx context.Context, h *handler1, msgID uin
 	t.RetryTransaction = transactions.NewRetryTransaction(
 		ctx, h.cfg.RetryDelay, h.cfg.RetryCount, t.resend,
 		func() {
-			h.transactions.Delete(msgID)
+			h.brokerTransactions.Delete(msgID)
 			tLog.Debug("Deleted.")
 		},
 	)
